@@ -122,11 +122,38 @@ def _mutate(ck: Check, repo: Repo) -> None:
             ck.ob("C06.1", fn, n.ast, ok, "a shrunk value is compared with min (>) and a grown value with max (<)")
 
 
+def _sources(cfg: CFG, n: Optional[Node], e: ast.AST) -> List[Optional[ast.AST]]:
+    """The expressions `e` stands for at node n: a local name is replaced by the values of its reaching definitions
+    (None for a definition that is not a plain binding); anything else stands for itself.  Independent of how a local is spelled."""
+    if isinstance(e, ast.Name) and n is not None:
+        defs = [d for d in cfg.defs_reaching(n, e.id) if d.kind != "entry"]
+        if defs:
+            return [cfg.value_of_def(d, e.id) for d in defs]
+    return [e]
+
+
+def _is_own_config(cfg: CFG, n: Optional[Node], e: ast.AST) -> bool:
+    """e is individual.registry.hp_config, directly or through a local bound to exactly that on every path."""
+    src = _sources(cfg, n, e)
+    return bool(src) and all(v is not None and dotted(v) == "individual.registry.hp_config" for v in src)
+
+
 def _hp_mutation(ck: Check, repo: Repo) -> None:
     fn = repo.fn(MUT, "Mutations.rl_hyperparam_mutation")
     cfg = CFG(fn.node)
     tb = TermBuilder(repo, fn, cfg=cfg, depth=0)
-    samples = [c for c in calls_in(fn.node) if last_attr(c) == "sample" and "hp_config" in ast.unparse(c.func)]
+    # the sampling of a hyper-parameter: `<receiver>.sample()` unpacked into two names (name, parameter) or drawn from
+    # something that is (bound to) an `.hp_config` attribute
+    samples = []
+    for c in calls_in(fn.node):
+        if last_attr(c) != "sample" or not isinstance(c.func, ast.Attribute):
+            continue
+        cn = cfg.node_of(c)
+        from_cfg = any(v is not None and dotted(v).split(".")[-1] == "hp_config" for v in _sources(cfg, cn, c.func.value))
+        unpack2 = cn is not None and isinstance(cn.ast, ast.Assign) and cn.ast.value is c and isinstance(cn.ast.targets[0], ast.Tuple) \
+            and len(cn.ast.targets[0].elts) == 2 and not c.args and not c.keywords
+        if from_cfg or unpack2:
+            samples.append(c)
     ck.ob("C06.3", fn, samples[0] if samples else fn.node, len(samples) == 1 and not any(
         isinstance(x, (ast.For, ast.While)) and any(y is samples[0] for y in ast.walk(x)) for x in ast.walk(fn.node)),
         "exactly one hyper-parameter is sampled per call")
@@ -134,11 +161,10 @@ def _hp_mutation(ck: Check, repo: Repo) -> None:
         return
     sn = cfg.node_of(samples[0])
     tg = sn.ast.targets[0] if isinstance(sn.ast, ast.Assign) else None
-    if not (isinstance(tg, ast.Tuple) and len(tg.elts) == 2):
+    if not (isinstance(tg, ast.Tuple) and len(tg.elts) == 2 and all(isinstance(e, ast.Name) for e in tg.elts)):
         raise AnalysisError("rl_hyperparam_mutation: `name, param = hp_config.sample()` shape not found")
     name_v, param_v = tg.elts[0].id, tg.elts[1].id
-    src = ast.unparse(samples[0].func.value)
-    ck.ob("C06.3", fn, samples[0], "individual.registry.hp_config" in ast.unparse(fn.node) and (src == "hp_config" or "individual" in src),
+    ck.ob("C06.3", fn, samples[0], _is_own_config(cfg, sn, samples[0].func.value),
           "the configuration sampled from is the individual's own registry entry")
     muts = [c for c in calls_in(fn.node) if call_name(c) == f"{param_v}.mutate"]
     ck.ob("C06.3", fn, muts[0] if muts else fn.node, len(muts) == 1, "the sampled parameter is mutated once", construct=f"{param_v}.mutate() calls")
@@ -174,7 +200,9 @@ def _hp_mutation(ck: Check, repo: Repo) -> None:
     early = [n for n in labels if not cfg.dominates(mn, n)]
     for n in early:
         gs = cfg.guards_at(n)
-        ck.ob("C06.3", fn, n.ast, const_value(n.ast.value) == "None" and any("hp_config" in ast.unparse(g) and (pol == (isinstance(g, ast.UnaryOp) and isinstance(g.op, ast.Not))) for g, pol, _ in gs),
+        ck.ob("C06.3", fn, n.ast, const_value(n.ast.value) == "None" and any(
+            _is_own_config(cfg, gn, g.operand if isinstance(g, ast.UnaryOp) and isinstance(g.op, ast.Not) else g)
+            and (pol == (isinstance(g, ast.UnaryOp) and isinstance(g.op, ast.Not))) for g, pol, gn in gs),
               "the label 'None' is reported only when there is no configuration to mutate")
     rets = [n for n in cfg.live_nodes() if n.kind == "stmt" and isinstance(n.ast, ast.Return)]
     ck.ob("C06.3", fn, rets[0].ast if rets else fn.node, bool(rets) and all(dotted(r.ast.value) == "individual" for r in rets), "the same individual is returned")
@@ -218,17 +246,19 @@ def _covers_all_matches(cfg: CFG, n: Node, opt: ast.AST, name_v: str, call: ast.
             tgt = l.ast.target
             if isinstance(tgt, ast.Name) and tgt.id == opt.id:
                 it_src = ast.unparse(l.ast.iter)
-                over_all = "optimizers" in it_src or "optimizer_configs" in it_src
-                filt_in_iter = f".lr" in it_src and name_v in it_src and "[0]" not in it_src and not _has_const_index(l.ast.iter)
+                # the iterable is (a local bound on every path to) an expression over the registry's `.optimizers`
+                its = _sources(cfg, l, l.ast.iter)
+                over_all = bool(its) and all(v is not None and any(isinstance(x, ast.Attribute) and x.attr == "optimizers" for x in ast.walk(v)) for v in its)
+                filt_in_iter = _reads_attr(l.ast.iter, "lr") and _mentions(l.ast.iter, name_v) and "[0]" not in it_src and not _has_const_index(l.ast.iter)
                 gs = cfg.guards_at(n)
-                filt_guard = any(pol and isinstance(g, ast.Compare) and isinstance(g.ops[0], ast.Eq) and name_v in ast.unparse(g) and ".lr" in ast.unparse(g) for g, pol, _ in gs)
+                filt_guard = any(pol and isinstance(g, ast.Compare) and isinstance(g.ops[0], ast.Eq) and _mentions(g, name_v) and _reads_attr(g, "lr") for g, pol, _ in gs)
                 if over_all and (filt_guard or filt_in_iter):
                     return True, "loop over the registered optimizers with the lr-name filter"
                 # iterable is a local list built by a filtering comprehension
                 if isinstance(l.ast.iter, ast.Name):
                     for d in cfg.defs_reaching(l, l.ast.iter.id):
                         v = cfg.value_of_def(d, l.ast.iter.id)
-                        if isinstance(v, ast.ListComp) and ".lr" in ast.unparse(v) and name_v in ast.unparse(v):
+                        if isinstance(v, ast.ListComp) and _reads_attr(v, "lr") and _mentions(v, name_v):
                             return True, "loop over the filtered list of matching optimizers"
         # a single name: where does it come from?
         defs = cfg.defs_reaching(n, opt.id)
@@ -243,6 +273,14 @@ def _covers_all_matches(cfg: CFG, n: Node, opt: ast.AST, name_v: str, call: ast.
     return False, f"unrecognised selection `{short(opt, 80)}`"
 
 
+def _reads_attr(e: ast.AST, attr: str) -> bool:
+    return any(isinstance(x, ast.Attribute) and x.attr == attr for x in ast.walk(e))
+
+
+def _mentions(e: ast.AST, name: str) -> bool:
+    return any(isinstance(x, ast.Name) and x.id == name for x in ast.walk(e))
+
+
 def _has_const_index(e: ast.AST) -> bool:
     for x in ast.walk(e):
         if isinstance(x, ast.Subscript) and isinstance(x.slice, ast.Constant) and isinstance(x.slice.value, int):
@@ -250,6 +288,15 @@ def _has_const_index(e: ast.AST) -> bool:
         if isinstance(x, ast.Call) and call_name(x) == "next":
             return True
     return False
+
+
+def _only_assigned_from(root: ast.AST, name: str, values: List[ast.AST]) -> bool:
+    """Every binding of `name` under root is a plain assignment of one of `values`."""
+    for x in ast.walk(root):
+        if isinstance(x, ast.Name) and x.id == name and isinstance(x.ctx, (ast.Store, ast.Del)):
+            if not any(isinstance(a, ast.Assign) and any(a.value is v for v in values) and any(t is x for t in a.targets) for a in ast.walk(root)):
+                return False
+    return True
 
 
 def _registry_private_copy(repo: Repo) -> bool:
@@ -290,7 +337,13 @@ def _reinit_opt(ck: Check, repo: Repo) -> None:
             ck.ob("C06.5", fn, c, v is not None and dotted(v).split(".")[-1] == kw, f"setting `{kw}` is carried over from the optimizer being replaced",
                   construct=f"{kw}={short(v, 50)}")
     sets = [c for c in calls_in(fn.node, nested=True) if call_name(c) == "setattr" and dotted(c.args[0]) == "individual"]
-    ck.ob("C06.5", fn, sets[0] if sets else fn.node, len(sets) == 1 and dotted(sets[0].args[1]) == "config.name" and dotted(sets[0].args[2]) == "offspring_opt",
+    # roles: the registry entry is the first parameter of the helper that contains the setattr; the new optimizer is the
+    # name every OptimizerWrapper(...) construction is assigned to
+    entry = [f.args.args[0].arg for f in inner if f.args.args and sets and any(x is sets[0] for x in ast.walk(f))]
+    new_opt = {t.id for a in ast.walk(fn.node) if isinstance(a, ast.Assign) and any(a.value is c for c in ows) for t in a.targets if isinstance(t, ast.Name)}
+    ck.ob("C06.5", fn, sets[0] if sets else fn.node, len(sets) == 1 and len(sets[0].args) == 3 and bool(entry) and dotted(sets[0].args[1]) == f"{entry[0]}.name"
+          and len(new_opt) == 1 and isinstance(sets[0].args[2], ast.Name) and sets[0].args[2].id in new_opt
+          and _only_assigned_from(fn.node, sets[0].args[2].id, ows),
           "the new optimizer replaces the attribute named in the registry entry")
     # all optimizers when none is given
     src = ast.unparse(fn.node)
@@ -324,4 +377,9 @@ VARIANTS = [
     ("reinit-all-ok", _MF, "            for opt_config in optimizer_configs:\n                if mutate_attr == opt_config.lr:\n                    # Reinitialise every optimizer that uses the new learning rate\n                    self.reinit_opt(individual, optimizer=opt_config)",
      "            self.reinit_opt(individual)", "silent", None),
     ("lr-from-old-wrapper", _MF, "                    lr=getattr(individual, opt.lr_name),", "                    lr=opt.lr,", "fire", "C06.5"),
+    # roles derived by def-use instead of by the spelling of locals
+    ("config-not-the-individuals", _MF, "        hp_config = individual.registry.hp_config\n        if not hp_config:", "        hp_config = self.registry.hp_config\n        if not hp_config:", "fire", "C06.3"),
+    ("store-old-wrapper", _MF, "setattr(individual, config.name, offspring_opt)", "setattr(individual, config.name, opt)", "fire", "C06.5"),
+    ("optimizers-of-other-registry", _MF, "            optimizer_configs = individual.registry.optimizers\n            for opt_config in optimizer_configs:\n                if mutate_attr",
+     "            optimizer_configs = individual.registry.groups\n            for opt_config in optimizer_configs:\n                if mutate_attr", "fire", "C06.4"),
 ]
